@@ -384,7 +384,7 @@ def discharge(b, i, kind, detail, t, defs, cmps, dom):
 
 
 GUARDISH = re.compile(r'^(call:.*(::len|is_empty|remaining|has_remaining|checked_\w+|key_size|block_size|nonce_size|tag_size|iv_size|digest_size|fixed_encoding_len|write_len|::get|::first|::last|split_first|split_last|try_into|try_from|position|::min)$'
-                      r'|op:(Lt|Le|Gt|Ge)$|op:Len$|len$)')
+                      r'|op:(Lt|Le|Gt|Ge|Eq|Ne)$|op:Len$|len$)')
 ROOTISH = re.compile(r'^(field:|param:)')
 RATCHET_KINDS = re.compile(r'^(index\[|copy_from_slice|split_at|split_to|split_off|advance|truncate|from_slice|remove|insert|get_u|put_slice|BoundsCheck|Overflow\(Sub\)|DivisionByZero|RemainderByZero)')
 
